@@ -64,6 +64,7 @@ fn run_scenario(out: &mut TraceOut, family: &str, seed: u64, idx: u64, heavy: bo
             cursor::scn_alloc_readers(out, &mut r, idx, heavy, &scratch);
             let _ = std::fs::remove_dir_all(&scratch);
         }
+        "explore" => cursor::scn_explore(out, &mut r, idx, heavy),
         "format" => layout::scn_format(out, &mut r, idx, heavy),
         "cut" => layout::scn_cut(out, &mut r, idx, heavy),
         "unsorted" => layout::scn_unsorted(out, &mut r, idx, heavy),
@@ -167,6 +168,18 @@ fn main() {
             let mut v = out.finish();
             v["model_results_compared"] = compared.into();
             v["model_result_drift"] = drift.into();
+            println!("{}", v);
+        }
+        "wseq" => {
+            let doc: serde_json::Value = serde_json::from_str(&std::fs::read_to_string(&args[2]).unwrap()).unwrap();
+            let shards: usize = arg(&args, "--shards", 1);
+            let dir: PathBuf = PathBuf::from(arg(&args, "--out", "out/traces".to_string()));
+            let mut out = TraceOut::new(&dir, "wseq", shards);
+            io::reset(io::Sched::Whole, io::Sched::Whole, None);
+            let (compared, drift) = layout::replay_wseq(&mut out, &doc);
+            let mut v = out.finish();
+            v["model_blocks_compared"] = compared.into();
+            v["model_layout_drift"] = drift.into();
             println!("{}", v);
         }
         "one" => {
